@@ -7,7 +7,6 @@ pyiga.assemble.RestrictedLinearSystem (M1).
 Part 2 (spec/DirichletBC.tla): dof sets of faces (all bdspecs, flips), blocked numbering of vector data,
 compute_dirichlet_bc(s) with data in the trace space, combine_bcs, compute_initial_condition_01,
 Multipatch.compute_dirichlet_bcs (spec/DirichletMP.tla instantiates Multipatch.tla)."""
-import itertools
 import zlib
 from concurrent.futures import ThreadPoolExecutor
 
@@ -30,23 +29,24 @@ def _h(*xs):
 # part 1: RestrictedLinearSystem
 
 def rls_cfgs(ctx):
-    allv, allr = {'zero', 'scalar', 'array'}, {'array', 'zero'}
+    """one TLC run per system size; (VModes, RModes, Fmts) apply without elim_rows, (EVModes, ...) with"""
+    allv, allr, two, three = {'zero', 'scalar', 'array'}, {'array', 'zero'}, {'dense', 'csr'}, {'dense', 'csr', 'csc'}
     out = []
 
-    def add(name, N, elim, vm=allv, rm=allr, fmts=('dense', 'csr'), workers=2):
-        out.append((name, dict(N=N, MaxLen=N, ElimMode=elim, VModes=set(vm), RModes=set(rm), Fmts=set(fmts),
-                               Buggy=False, DoEmit=True), workers))
+    def add(name, N, elim, modes, emodes, workers=2):
+        out.append((name, dict(N=N, MaxLen=N, ElimMode=elim, VModes=modes[0], RModes=modes[1], Fmts=modes[2],
+                               EVModes=emodes[0], ERModes=emodes[1], EFmts=emodes[2], Buggy=False, DoEmit=True),
+                    workers))
+    full = (allv, allr, three if ctx.thorough else two)
     for n in (1, 2, 3):
-        add('n%d-all' % n, n, 'all', workers=1)
-    add('n5-none', 5, 'none')
+        add('n%d' % n, n, 'all', full, full, workers=1)
     if not ctx.thorough:
-        add('n4-none', 4, 'none', workers=1)
-        add('n4-all', 4, 'all', vm={'array', 'zero'}, rm=allr, fmts=('csr',))
-        add('n5-sets2', 5, 'sets2', vm={'array'}, rm={'array'})
+        add('n4', 4, 'all', full, ({'array', 'zero'}, allr, {'csr'}))
+        add('n5', 5, 'sets2', full, ({'array'}, {'array'}, two))
     else:
-        add('n4-all', 4, 'all', fmts=('dense', 'csr', 'csc'), workers=3)
-        add('n5-sets2', 5, 'sets2', fmts=('dense', 'csr', 'csc'), workers=4)
-        add('n5-all', 5, 'all', vm={'array'}, rm={'array'}, workers=4)
+        add('n4', 4, 'all', full, full, workers=3)
+        add('n5', 5, 'sets2', full, full, workers=4)
+        add('n5-all', 5, 'all', ({'array'}, {'array'}, {'csr'}), ({'array'}, {'array'}, two), workers=4)
     return out
 
 
@@ -64,6 +64,7 @@ class Tally:
 
     def flush(self, ctx):
         for sig, e in self.d.items():
+            print('[c10] %6d failing case(s): %s' % (e['count'], sig), flush=True)
             ctx.violation(sig, {'failing_cases': e['count'], 'first': e['first'], 'more': e['more']})
 
 
@@ -104,7 +105,7 @@ def replay_rls(ctx, tally, sysrec, r):
     if r['helim']:
         kw['elim_rows'] = [list, tuple, lambda e: np.array(e, dtype=int)][hv % 3](r['elim'])
     order = 'sorted' if list(idx) == sorted(idx) else 'unsorted'
-    cls = 'indices=%s values=%s elim_rows=%s' % (order, vm, 'given' if r['helim'] else 'none')
+    cls = 'indices=%s values=%s' % (order, vm)
     case = {k: r[k] for k in ('n', 'idx', 'vm', 'vals', 'helim', 'elim', 'rm', 'fmt')}
 
     def bad(obs, got, want):
@@ -310,7 +311,7 @@ class BCReplay:
         sp = self.space(r)
         kvs, D = sp['kvs'], r['D']
         bds = bdspec_of(r['bd'])
-        cls = 'dim=%d bdspec=%s' % (D, 'name' if r['bd']['name'] else 'pair')
+        cls = 'dim=%d' % D
         case = {k: r[k] for k in ('D', 'shape', 'deg', 'bd', 'hasflip', 'flip')}
         hv = _h(r['shape'], r['deg'], r['bd'], r['flip'])
         kw = {}
@@ -365,7 +366,7 @@ class BCReplay:
         try:
             idx, vals = call()
         except Exception as ex:
-            self.bad('exception %s %s %s' % (type(ex).__name__, what, cls), {'case': case, 'error': repr(ex)})
+            self.bad('exception %s %s %s' % (type(ex).__name__, what.split()[0], cls), {'case': case, 'error': repr(ex)})
             return
         got = self.as_map(idx, vals)
         if got is None:
@@ -404,7 +405,7 @@ class BCReplay:
         G = self.geo(D, variant)
         case = {'D': D, 'shape': r['shape'], 'deg': r['deg'], 'geometry': variant, 'shorthand': r['shorthand'],
                 'conds': [[bdspec_of(cn['bd']), cn['f']] for cn in r['conds']]}
-        cls = 'dim=%d %s' % (D, 'shorthand-all' if r['shorthand'] else 'nconds=%d' % len(r['conds']))
+        cls = 'dim=%d' % D
         if r['shorthand']:
             f = r['conds'][0]['f']
             bdconds = ('all', self.func(sp, G, f)) if hv % 2 else ['all', self.func(sp, G, f)]
@@ -458,7 +459,7 @@ class BCReplay:
             g0 = lambda *X: S0([X[Df - 1 - a] for a in range(Df)])      # parametric: xyz order -> axis order
             g1 = lambda *X: S1([X[Df - 1 - a] for a in range(Df)])
         case = {k: r[k] for k in ('D', 'shape', 'deg', 'tax', 'side', 'ta', 'tb', 'physical')}
-        cls = 'time-interval=[%d,%d] side=%d physical=%s' % (r['ta'], r['tb'], side, r['physical'])
+        cls = 'time-interval=[%d,%d] side=%d' % (r['ta'], r['tb'], side)
         exp = {e['dof']: [float(frac(e['val']))] for e in r['entries']}
         self._bc_call('compute_initial_condition_01', cls, case,
                       lambda: assemble.compute_initial_condition_01(kvs, geo, (tax, side), g0, g1,
@@ -592,9 +593,8 @@ def run(ctx):
     jobs = []
     for name, consts, workers in rls_cfgs(ctx):
         jobs.append(('rls', name, 'Dirichlet', consts, RLS_INVS, workers))
-    for part, dims in (('faces', {1, 2, 3}), ('bcs', {1, 2, 3}), ('combine', {1}), ('init', {2, 3}),
-                       ('reject', {1, 2, 3})):
-        jobs.append(('bc', part, 'DirichletBC', dict(Tier=tier, Part=part, Dims=dims), BC_INVS, 2))
+    for name, parts in (('faces', {'faces', 'reject', 'init', 'combine'}), ('bcs', {'bcs'})):
+        jobs.append(('bc', name, 'DirichletBC', dict(Tier=tier, Parts=parts, Dims={1, 2, 3}), BC_INVS, 3))
     mpc = [(1, 2, 2, 0), (1, 2, 3, 0b0110), (2, 2, 2, 0)]
     if ctx.thorough:
         mpc += [(2, 2, 3, 0b10011100), (2, 3, 2, 0), (1, 3, 3, 0b010010)]
@@ -611,11 +611,14 @@ def run(ctx):
         results = list(ex.map(one, jobs))
 
     # negative control: the mask-based completion as the code stands violates the reference
-    neg = dict(N=3, MaxLen=3, ElimMode='none', VModes={'array'}, RModes={'array'}, Fmts={'dense'}, Buggy=True,
-               DoEmit=False)
+    one_ = ({'array'}, {'array'}, {'dense'})
+    neg = dict(N=3, MaxLen=3, ElimMode='none', VModes=one_[0], RModes=one_[1], Fmts=one_[2], EVModes=one_[0],
+               ERModes=one_[1], EFmts=one_[2], Buggy=True, DoEmit=False)
     ctx.expect_violation('Dirichlet', write_cfg(ctx.scratch / 'c10_rls_buggy.cfg', neg, invariants=RLS_INVS),
                          invariant='CodeAgrees')
 
+    import time
+    t_replay = time.time()
     tally = Tally()
     bc = BCReplay(ctx, tally)
     for job, res in results:
@@ -627,12 +630,14 @@ def run(ctx):
             sysr, recs = res.recs('SYS'), res.recs('RLS')
             if len(sysr) != 1 or not recs:
                 raise MachineryError('no RLS cases generated for %s' % name)
+            t1 = time.time()
             for r in recs:
                 replay_rls(ctx, tally, sysr[0], r)
+            print('[c10]   RLS %s: %d records replayed in %.1fs' % (name, len(recs), time.time() - t1), flush=True)
         elif kind == 'bc':
-            tags = {'faces': ['FACE', 'SLICE'], 'bcs': ['BCS'], 'combine': ['COMBINE'], 'init': ['INIT'],
-                    'reject': ['REJECT']}[name]
+            tags = {'faces': ['FACE', 'SLICE', 'COMBINE', 'INIT', 'REJECT'], 'bcs': ['BCS']}[name]
             for tag in tags:
+                t1 = time.time()
                 recs = res.recs(tag)
                 if not recs:
                     raise MachineryError('no %s cases generated' % tag)
@@ -640,10 +645,12 @@ def run(ctx):
                                   'INIT': 'init', 'REJECT': 'reject'}[tag])
                 for r in recs:
                     fn(r)
+                print('[c10]   %s: %d records replayed in %.1fs' % (tag, len(recs), time.time() - t1), flush=True)
         else:
             sysr, recs = res.recs('MPSYS'), res.recs('MPBC')
             if len(sysr) != 1 or not recs:
                 raise MachineryError('no multipatch cases generated for %s' % name)
             replay_mp(ctx, tally, sysr[0], recs)
+    print('[c10] replay on the real code: %.1fs' % (time.time() - t_replay), flush=True)
     tally.flush(ctx)
     ctx.exhaustive = True
